@@ -299,7 +299,7 @@ def st_forms(be, hiN, forms):
 
 
 FACETS.append(Facet('np/operand-forms', f_forms, strategy=lambda t: st_forms('np', 4, ['pauli', 'monomial', 'poly1']), examples={'quick': 1500, 'thorough': 60000}, shards={'quick': 1, 'thorough': 4}))
-FACETS.append(Facet('torch/operand-forms', f_forms, strategy=lambda t: st_forms('torch', 3, ['pauli', 'poly1']), examples={'quick': 200, 'thorough': 8000}, backend='torch'))
+FACETS.append(Facet('torch/operand-forms', f_forms, strategy=lambda t: st_forms('torch', 3, ['pauli', 'poly1']), examples={'quick': 800, 'thorough': 8000}, backend='torch'))
 
 
 from checks import large as _large
